@@ -144,8 +144,7 @@ def recipes(qp):  # noqa: C901 - a table
         _ang(rng), "".join(rng.choice(list("XYZ"), size=n)), wires=_W(rng, n))))(int(rng.integers(1, 4)))
 
     def qubit_unitary(rng):
-        n = int(rng.choice([1, 1, 2, 2, 3, 4]))
-        return Inst(qp.QubitUnitary(_haar(rng, 2**n), wires=_W(rng, n)))
+        return [Inst(qp.QubitUnitary(_haar(rng, 2**n), wires=_W(rng, n))) for n in (1, 2, int(rng.choice([3, 3, 4])))]
     R["QubitUnitary"] = qubit_unitary
 
     def diag_unitary(rng):
@@ -712,8 +711,9 @@ def variants(qp, inst, rng, quick=True, cap=8):
         out.append(Inst(qp.adjoint(op), tag="Adjoint", sym=("adjoint",), **cp))
     except Exception:  # noqa: BLE001
         pass
-    zs = [2, 3, int(rng.choice([4, 8, 9, 5])), float(rng.choice([0.5, -1.0, 1.5, -2.0, 0.25, 2.5, -0.5])), int(rng.choice([0, 1, -1, -3]))]
-    for z in (zs[:2] + zs[3:4] if quick else zs):
+    zs = [2, 3, int(rng.choice([4, 8, 9, 5])), float(rng.choice([0.5, 0.5, 0.5, -1.0, 1.5, -2.0, 0.25, 2.5, -0.5])),
+          int(rng.choice([0, 1, -1, -3]))]
+    for z in (zs[:4] if quick else zs):
         try:
             out.append(Inst(qp.pow(op, z), tag="Pow", sym=("pow", z), **cp))
         except Exception:  # noqa: BLE001
